@@ -2,8 +2,13 @@
 """Writes the transcription pins (expected skeleton fingerprints) into lean/TemplVerif/Props/Cnn.lean from the CURRENT
 Generated/Skeletons.lean. Run it deliberately: after reading a change of an anchored function and deciding that the
 hand-written model still transcribes it. The checks never run it."""
-import re, collections, sys
+import re, collections, subprocess, sys
 ROOT = "/verif/lean/TemplVerif"
+# Generated/Skeletons.lean is rewritten by every check run, also by runs against a seeded change: pin only what was
+# extracted from a clean /repo, and extract it again now.
+if subprocess.run(["git", "-C", "/repo", "status", "--porcelain"], capture_output=True, text=True).stdout.strip():
+    sys.exit("mkpins: /repo has uncommitted changes; refusing to pin")
+subprocess.run(["/verif/check", "C13", "quick"], capture_output=True, text=True)
 src = open(f"{ROOT}/Generated/Skeletons.lean").read()
 items = re.findall(r"/-- \[([C\d,]+)\] (\S+) (\S+): (.*?) -/\ndef (skel_\w+) : Nat := (\d+)", src, flags=re.S)
 by = collections.defaultdict(list)
